@@ -5000,9 +5000,15 @@ def handle_sys_close(parser, events, no_cancel=False):
     return BscSysClose(events, events[0].values[0], serialize_result(events[-1]), no_cancel)
 
 
+def events_without_vnode(events, vnode):
+    # The records of the vnode are left out by identity, a record of the next lookup may be equal to one of them by value.
+    vnode_events = {id(e) for e in vnode.ktraces}
+    return [e for e in events if id(e) not in vnode_events]
+
+
 def handle_link(parser, events):
     old_vnode = parser.parse_vnode(events)
-    new_vnode = parser.parse_vnode([e for e in events if e not in old_vnode.ktraces])
+    new_vnode = parser.parse_vnode(events_without_vnode(events, old_vnode))
     return BscLink(events, old_vnode.path, new_vnode.path, serialize_result(events[-1]))
 
 
@@ -5380,7 +5386,7 @@ def handle_setregid(parser, events):
 
 def handle_rename(parser, events):
     old_vnode = parser.parse_vnode(events)
-    new_vnode = parser.parse_vnode([e for e in events if e not in old_vnode.ktraces])
+    new_vnode = parser.parse_vnode(events_without_vnode(events, old_vnode))
     return BscRename(events, old_vnode.path, new_vnode.path, serialize_result(events[-1]))
 
 
@@ -5503,7 +5509,7 @@ def handle_quotactl(parser, events):
 
 def handle_mount(parser, events):
     src_vnode = parser.parse_vnode(events)
-    dst_vnode = parser.parse_vnode([e for e in events if e not in src_vnode.ktraces])
+    dst_vnode = parser.parse_vnode(events_without_vnode(events, src_vnode))
     args = events[0].values
     return BscMount(events, src_vnode.path, dst_vnode.path, args[2], args[3], serialize_result(events[-1]))
 
@@ -5644,7 +5650,7 @@ def handle_getdirentriesattr(parser, events):
 
 def handle_exchangedata(parser, events):
     vnode1 = parser.parse_vnode(events)
-    vnode2 = parser.parse_vnode([e for e in events if e not in vnode1.ktraces])
+    vnode2 = parser.parse_vnode(events_without_vnode(events, vnode1))
     args = events[0].values
     return BscExchangedata(events, vnode1.path, vnode2.path, args[2], serialize_result(events[-1]))
 
@@ -6251,7 +6257,7 @@ def handle_getattrlistbulk(parser, events):
 
 def handle_clonefileat(parser, events):
     src = parser.parse_vnode(events)
-    dst = parser.parse_vnode([e for e in events if e not in src.ktraces])
+    dst = parser.parse_vnode(events_without_vnode(events, src))
     args = events[0].values
     return BscClonefileat(events, args[0], src.path, args[2], dst.path, serialize_result(events[-1]))
 
